@@ -340,9 +340,14 @@ class LiteralMethod(DeserializationMethod):
     def deserialize(self, data: Any) -> Any:
         try:
             value = self.value_map[data]
-            if data.__class__ in self.types:
+            data_cls: type = data.__class__
+            # instances of subclasses are accepted as for primitive types (e.g. a member
+            # of a str/int Enum, as emitted by serialization), but not a hash-equal
+            # value of another class (True for 1, 1.0 for 1)
+            if data_cls in self.types or (
+                data_cls is not bool and isinstance(data, self.types)
+            ):
                 return value
-            # hash-equal value of another class (True for 1, 1.0 for 1)
             raise KeyError(data)
         except KeyError:
             if self.coercer is not None:
@@ -350,7 +355,10 @@ class LiteralMethod(DeserializationMethod):
                     try:
                         coerced = self.coercer(cls, data)
                         # True is an instance of int but must not match 1
-                        if coerced.__class__ in self.types:
+                        if coerced.__class__ in self.types or (
+                            coerced.__class__ is not bool
+                            and isinstance(coerced, self.types)
+                        ):
                             return self.value_map[coerced]
                     except (KeyError, ValidationError):
                         pass
